@@ -162,7 +162,7 @@ impl Circuit {
                         return Err(CircuitError::InvalidRegAccess(i, x));
                     }
                     if !register_set[y] {
-                        return Err(CircuitError::InvalidRegAccess(i, x));
+                        return Err(CircuitError::InvalidRegAccess(i, y));
                     }
                 }
                 Op::Not(Not(x)) => {
@@ -175,6 +175,12 @@ impl Circuit {
                 }
             }
             register_set[inst.out] = true;
+        }
+        // the output registers are read by `eval`, so some instruction must have written them:
+        for &o in self.output_regs.iter() {
+            if !register_set[o] {
+                return Err(CircuitError::InvalidOutput(o));
+            }
         }
 
         Ok(())
